@@ -76,7 +76,8 @@ PROPS["C02"] = {
     "assumptions": COMMON_ASSUMPTIONS,
     "required_classes": ["case_with_restart", "case_crossing_indirection", "case_via_rpc", "case_failed_op_then_more"],
     "units": [
-        {"test": "^TestC02Seq$", "quick": {"checks": 120, "shards": 8}, "thorough": {"checks": 1500, "shards": 16, "steps": 80}},
+        {"test": "^TestC02Seq$", "quick": {"checks": 120, "shards": 8}, "thorough": {"checks": 1500, "shards": 12, "steps": 80}},
+        {"test": "^TestC02Full$", "quick": {"checks": 40, "shards": 4, "steps": 40}, "thorough": {"checks": 500, "shards": 8, "steps": 60}},
     ],
 }
 
